@@ -355,7 +355,7 @@ class OutputFiles:
 
 
 def _normalized(path):
-    return os.path.abspath(path) if path != "-" else path
+    return os.path.realpath(path) if path != "-" else path
 
 
 def _is_special_file(path) -> bool:
